@@ -5,6 +5,7 @@ package main
 import (
 	"fmt"
 	"go/ast"
+	"go/token"
 	"sort"
 	"strconv"
 	"strings"
@@ -728,15 +729,26 @@ func ruleRequestTx(c *RC) *RuleResult {
 			case c.clearedValue(v):
 				// (the function that makes the list may empty it first: what is still missing is listed again right away)
 				rebuilds := false
-				for _, s2 := range c.A.FnSites[s.Fn] {
-					if s2.Kind == "write" && s2.Loc == "ctx.MissingTransactions" && s2.Node.Pos() > s.Node.Pos() {
-						for _, sn2 := range s2.Snaps {
-							if sn2.Val != nil && sn2.Val.K == KCall && sn2.Val.Name == "append" {
-								rebuilds = true
+				var appends func(f *FuncInfo, after token.Pos, depth int)
+				appends = func(f *FuncInfo, after token.Pos, depth int) {
+					for _, s2 := range c.A.FnSites[f] {
+						if s2.Node.Pos() <= after {
+							continue
+						}
+						if s2.Kind == "write" && s2.Loc == "ctx.MissingTransactions" {
+							for _, sn2 := range s2.Snaps {
+								if sn2.Val != nil && sn2.Val.K == KCall && sn2.Val.Name == "append" {
+									rebuilds = true
+								}
 							}
+						}
+						// (the filling may sit in a helper the function calls next)
+						if s2.Kind == "call" && s2.Target != nil && depth < 2 {
+							appends(s2.Target, token.NoPos, depth+1)
 						}
 					}
 				}
+				appends(s.Fn, s.Node.Pos(), 0)
 				if c.inEpoch(s.Fn) {
 					r.ok("missing list cleared by the epoch writer")
 				} else if rebuilds {
